@@ -344,10 +344,52 @@ def _detector_rules(ctx):
     ctx.require_count("R10.3 detector records", n, 10)
 
 
+def _amplitude_enters_once(ctx):
+    """who-may-read: the static amplitude factor is read only at injection time (update_E / update_H of a source, or
+    the face-injection helpers they hand it to), never while an incident profile, a normalisation or a temporal
+    profile is built — together with R10.1 (injection has degree exactly one in it) the factor enters exactly once."""
+    import ast
+
+    ix = ctx.index
+    NAME = "static_amplitude_factor"
+    sites, bad = [], []
+    for mi in ix.modules.values():
+        fns = list(mi.functions.values()) + [m for c in getattr(mi, "classes", {}).values() for m in c.methods.values()]
+        for fi in fns:
+            params = {a.arg for a in fi.node.args.args + fi.node.args.kwonlyargs}
+            for node in ast.walk(fi.node):
+                hit = (isinstance(node, ast.Attribute) and node.attr == NAME and isinstance(node.ctx, ast.Load)) or (isinstance(node, ast.Name) and node.id == NAME and isinstance(node.ctx, ast.Load))
+                if not hit:
+                    continue
+                site = f"{mi.name}.{fi.name}"
+                sites.append(site)
+                at_injection = fi.name in ("update_E", "update_H") and mi.name.startswith("fdtdx.objects.sources.")
+                helper = isinstance(node, ast.Name) and NAME in params and mi.name.startswith("fdtdx.objects.sources.")
+                if not (at_injection or helper):
+                    bad.append(f"{site}: {ast.unparse(node)}")
+    # helpers that take the factor as a parameter are themselves called only from update_E / update_H
+    helpers = set()
+    for mi in ix.modules.values():
+        for fi in mi.functions.values():
+            if NAME in {a.arg for a in fi.node.args.args + fi.node.args.kwonlyargs}:
+                helpers.add(fi.name)
+    for mi in ix.modules.values():
+        fns = list(mi.functions.values()) + [m for c in getattr(mi, "classes", {}).values() for m in c.methods.values()]
+        for fi in fns:
+            for node in ast.walk(fi.node):
+                if isinstance(node, ast.Call):
+                    callee = node.func.attr if isinstance(node.func, ast.Attribute) else getattr(node.func, "id", None)
+                    if callee in helpers and fi.name not in ("update_E", "update_H") and fi.name not in helpers:
+                        bad.append(f"{mi.name}.{fi.name} calls the injection helper {callee}")
+    ctx.ob("R10.4", "static_amplitude_factor:read-only-at-injection", not bad, "the amplitude factor is read only in update_E / update_H of sources and in the face-injection helpers they call, so incident profiles, energy normalisation and temporal profiles are independent of it and it scales each injection exactly once", bad[:4], "no other reader")
+    ctx.ob("R10.4", "static_amplitude_factor:inventory", len(sites) >= 10 and len(helpers) >= 2, "the scan finds the known readers (dipole, hard source, TFSF plane / region updates, the two face-injection helpers)", f"{len(sites)} reads, helpers {sorted(helpers)}", ">= 10 reads, >= 2 helpers", nontrivial=False)
+
+
 def run(ctx):
     from ..par import run_jobs
 
     source_linearity(ctx)
+    _amplitude_enters_once(ctx)
     cases = _source_cases()
     ctx.require_count("R10.1 interpreted source updates", len(cases), 150)
     jobs = [("sources", cases[i::10]) for i in range(10)]
